@@ -26,6 +26,7 @@ type Program struct {
 	mu       sync.Mutex
 	srcCache map[string][]string
 	fnIndex  map[string]*ssa.Function
+	roGlobals map[*ssa.Global]bool
 }
 
 func LoadProgram(repo string, patterns []string) (*Program, error) {
